@@ -242,9 +242,11 @@ conditions and the arithmetic of its `read` regenerated — and `std`'s `read_ex
 `read_refines_concat` says that for every chunking (empty chunks anywhere) and every sequence of destination
 sizes what is copied is the next bytes of the concatenation and the count returned is their number, and
 `chunk_stream_is_the_concatenation` that `read_exact` over the chunks is `read_exact` over a stream holding
-the concatenation — the stream `Amqp.IoRead` stands on, so that `io_refines_slice` carries over: decoding a
-delivery from its frames' payloads is decoding it from one buffer (this was an assumption of C10 and C01
-before). `Amqp/FrameBody.lean` is what `FrameDecoder::decode` makes of one frame after the length-delimited
+the concatenation — the stream `Amqp.IoRead` stands on; `chunks_are_one_stream` lifts that to every sequence
+of `read_exact` calls (same bytes, a failure at the same call), and since the io reader touches its stream
+through `read_exact` only (`source_stream_only_through_read_exact`, regenerated) `io_refines_slice` carries
+over: decoding a delivery from its frames' payloads is decoding it from one buffer (this was an assumption
+of C10 and C01 before). `Amqp/FrameBody.lean` is what `FrameDecoder::decode` makes of one frame after the length-delimited
 layer: the header step (`Amqp.FrameHeader`), the empty body, the performative decoded by the typed model,
 and what follows it kept as the payload of a transfer and of a transfer only (which arm splits off the
 rest is a generated fact); `transfer_frame_decodes` / `transfer_frame_decodes_any_encoding` are
@@ -434,6 +436,14 @@ right; the machinery was corrected, nothing was added to the known findings, no 
   `on_detach` first expected the later `close()` to report the peer's error that `on_detach` had already
   handed to the application; `recvcredit` first forgot that the error of an undecodable delivery carries
   the DeliveryInfo the application disposes of it with (without it an Auto(1) link looked stalled).
+* Fourth session, thorough tier (seed 11, after the round): `reasm` reported "other-link-disturbed" — with
+  deliveries of up to 200 frames the interleaved second link was sent more deliveries than the 100 credits
+  its receiver had granted (the harness' own limit; 1000 now); `life` reported "peer-detach-not-answered"
+  for a sending link whose second pre-settled send the peer's session window of 1 still held back when the
+  peer closed the link: the answering detach waits behind the held transfer (9ef99c0) and the scripted peer
+  never re-opened the window — the rule now leaves out links with transfers held by a window that is not
+  re-opened. (The case was generated because the new `lwatch` branch shifted the random choices; the rule
+  had always had that gap.)
 * Fourth session, a lesson about the machinery: a `pkill` meant for a build of the working copy also killed
   the build of the queue that was trying seeded change C02-d2; the change was first recorded as caught
   ("harness-build") and not confirmed. It was re-confirmed in a clean clone and re-tried on a quiet tree (it
@@ -475,10 +485,11 @@ they are listed in §8 with the property whose check found them.
   futures after k polls, a 4-thread runtime for C01) and labelled as measured, not proved. Two of
   the defects found this way (the engine wait cycle 0f7cff3, the unsettled-entry race 4ebf411) are
   of exactly this kind: no theorem about the logic could have shown them.
-* `Amqp.Chunks` models `read` and `read_exact`; the io reader on top of it is `Amqp.IoRead` with the
-  concatenation as its stream (proved equivalent), the decoder on top of that is the slice decoder (by
-  `io_refines_slice`): the composition is stated in prose and checked by the `chunks` runs on whole values
-  and messages, not as one Lean theorem. `Amqp.FrameBody` reads performatives with the typed model, which is
+* `Amqp.Chunks` models `read` and `read_exact` and proves the chunk reader observationally equal to a
+  stream over the concatenation (`chunks_are_one_stream`); the io reader on top of a stream is `Amqp.IoRead`,
+  the decoder on top of that is the slice decoder (`io_refines_slice`). The last step of the composition —
+  "the decoder is a function of what its reader answers" — is not a Lean theorem (there is no model of the
+  decoder over an abstract reader); it is what the `chunks` runs check on whole values and messages. `Amqp.FrameBody` reads performatives with the typed model, which is
   stricter than the implementation on damaged input (counted in the evidence, as for C03). The section
   counting of `IncompleteTransfer::append` (section-number / section-offset of the `received` state) is not
   modelled. `Amqp.Dispose` starts after the sort and the filter of `dispose_all` (the runs apply both).
